@@ -711,8 +711,9 @@ func reqHeaders(path string) []hpack.HeaderField {
 
 func flowScenario(x *explore.X, depth int) { flowScenarioCfg(x, depth, false) }
 
-// flowScenarioCfg: reduced = only the 8-octet window and an ample connection window (the quick tier trades
-// set-ups for one more step of depth: a window must go negative and be re-opened before it can be overrun).
+// flowScenarioCfg: reduced = only the 8-octet window (the quick tier trades set-ups for one more step of
+// depth: a window must go negative and be re-opened before it can be overrun; one stream must wait for its
+// own window and another for the connection window before a connection-level update can strand one).
 func flowScenarioCfg(x *explore.X, depth int, reduced bool) {
 	// the order in which the relay visits its per-stream queues (a Go map) is an explored choice
 	var y *sys
@@ -739,8 +740,8 @@ func flowScenarioCfg(x *explore.X, depth int, reduced bool) {
 	w, tight := 8, false
 	if !reduced {
 		w = []int{8, 16}[x.ChooseFree("window", 2)]
-		tight = x.ChooseFree("connection-window", 2) == 1 // connection window nearly exhausted by an earlier stream
 	}
+	tight = x.ChooseFree("connection-window", 2) == 1 // connection window nearly exhausted by an earlier stream
 	a, b := y.c, y.s
 	if dir == 1 {
 		a, b = y.s, y.c
@@ -1189,6 +1190,7 @@ func testH2(t *testing.T, prop string) {
 		s.Add(explore.Scenario{Name: "fidelity-quick", Remote: true, Tiers: []string{"quick"}, Run: runBubble(t, func(x *explore.X) { fidelityScenario(x, 3) })})
 		s.Add(explore.Scenario{Name: "fidelity-thorough", Remote: true, Tiers: []string{"thorough"}, Run: runBubble(t, func(x *explore.X) { fidelityScenario(x, 4) })})
 		s.Add(explore.Scenario{Name: "flow-quick", Remote: true, Tiers: []string{"quick"}, Run: runBubble(t, func(x *explore.X) { flowScenario(x, q) })})
+		s.Add(explore.Scenario{Name: "flow-quick-deep", Remote: true, Tiers: []string{"quick"}, Run: runBubble(t, func(x *explore.X) { flowScenarioCfg(x, q+1, true) })})
 		s.Add(explore.Scenario{Name: "flow-thorough", Remote: true, Tiers: []string{"thorough"}, Run: runBubble(t, func(x *explore.X) { flowScenario(x, th) })})
 	}
 	s.Main()
